@@ -132,7 +132,8 @@ def run(tier):
     ck.cov["graph_form_inputs"] = len(graph_in)
     jobs2 = sweep.expand_jobs(inputs + extra_in, ["prep"] if quick else ["prep", "readout", "compress"], ck.rng, formats=False)
     jobs2 += sweep.expand_jobs(graph_in, ["prep"], ck.rng, formats=False)
-    traces, verdicts = sweep.run_jobs(ck, L, jobs2, "delivered")
+    # one Stabilizer / circuit object passed to every connectivity in turn (what it was asked before must not matter)
+    traces, verdicts = sweep.run_jobs(ck, L, jobs2, "delivered", sweeps=sweep.conn_sweep_jobs([dict(i, only_conn=None) for i in inputs + extra_in], ["prep", "readout"], ck.rng))
     known_keys = {key for (key, *_rest) in nonopt}
     for t, (cl, extra) in zip(traces, verdicts):
         if t["raised"] or cl & {"state", "diag", "unknown-gate", "uncoupled"}:
